@@ -5,6 +5,7 @@ import (
 	"errors"
 	"fmt"
 	"strings"
+	"time"
 
 	connect "github.com/bufbuild/connect-go"
 
@@ -143,6 +144,22 @@ func genC13(t *core.Tape, tier string) *Scenario {
 			}
 			boundSteps(p)
 			genYield(t, p)
+			if p.Kind == KUnary && p.bad == "" && p.K.HTTP2 && p.Client != broken && t.Bool(1, 4, "retry.after.deadline") {
+				// a retry: the caller (or a retry interceptor) sends the very same
+				// Request again after a first attempt that its deadline cut short -
+				// while the transport may not be through with that attempt yet
+				q := *p
+				q.ID = callID(n)
+				n++
+				q.bad = "expired-attempt" // judged only for what it does to the others
+				q.Deadline = time.Duration(1+t.Choose(12, "retry.deadline.us")) * time.Microsecond
+				q.ReqHeader = nil
+				q.ReqMsgs = [][]byte{tagged(t, q.ID, "req", 0)}
+				q.LiveCtx = false
+				p.ReuseRequestOf = q.ID
+				sc.Calls = append(sc.Calls, &q)
+				sc.Notes["retried_after_deadline"]++
+			}
 			sc.Calls = append(sc.Calls, p)
 		}
 	}
